@@ -67,11 +67,10 @@ def readRequestV4 : Rd Request := do
   let dport ← u16
   let dst ← u32
   let clientId ← readNulString
-  let target ← if dst < 0x100 then do
-      let domain ← readNulString
-      pure (Addr.domain domain dport)
-    else pure (Addr.v4 dst dport)
-  pure { version := 4, cmd := cmd, target := target, auth := some (clientId, []) }
+  if dst < 0x100 then do
+    let domain ← readNulString
+    pure { version := 4, cmd := cmd, target := Addr.domain domain dport, auth := some (clientId, []) }
+  else pure { version := 4, cmd := cmd, target := Addr.v4 dst dport, auth := some (clientId, []) }
 
 def readRequestV5 (required : Bool) : Rd Request := do
   let n ← u8
